@@ -192,6 +192,11 @@ def run(ctx):
             for t in ctx.props["theorems"]:
                 if t.get("source_derived"):
                     t["assumptions"] = None
+    # the structure of the readers in the source text (how many kernels open a chunk / check the header canonically, the
+    # widths of every fread / read, the initial buffer capacities): a lenient group - harmless rewrites change it
+    sd_shape = core.source_derived(sc, "FmtShape")
+    core.fold_source_derived(ctx, sd_shape, "the structure of the chunk readers")
+    rep.note("source_reader_structure", sd_shape.get("constants"))
     rep.lap('format_source')
     # ---------------- (c) kernels consume the chunks -----------------------------
     kcases = []
@@ -376,13 +381,20 @@ def run(ctx):
     # ---------------- (d) bad header at every position ---------------------------
     goodc = py_encode([[[0, 1], [0]], [[1], [1]]])
     bads = {"magic": py_encode([[[0], [0]]], magic=MAGIC + 7), "version": py_encode([[[0], [0]]], version=215),
-            "version+1": py_encode([[[0], [0]]], version=VERSION + 1)}
+            "version+1": py_encode([[[0], [0]]], version=VERSION + 1),
+            # both words wrong at once (after seeded change C06-L: error codes combined into another code)
+            "both": py_encode([[[0], [0]]], magic=MAGIC + 7, version=215),
+            "zero": [0] * 12,
+            "swapped": py_encode([[[0], [0]]], magic=VERSION, version=MAGIC),
+            "both-random": py_encode([[[0], [0]]], magic=rng.choice([1, 2, 3, 7, MAGIC ^ 1, rng.randrange(2**32)]),
+                                     version=rng.choice([0, 1, 2, 3, 7, 2048, VERSION ^ 1, rng.randrange(2**32)]))}
     ejobs, edesc = [], []
     entries = ["bb_threading", "bb_openmp", "b2r_openmp", "r2b_openmp", "r2r_openmp"]
     for n in range(1, 5):
         for mask in itertools.product([0, 1], repeat=n):
-            for badkind in (["magic", "version", "version+1"] if any(mask) else ["-"]):
-                if any(mask) and not thorough and badkind == "version+1" and n > 2:
+            for badkind in (["magic", "version", "version+1", "both", "zero", "swapped", "both-random"]
+                            if any(mask) else ["-"]):
+                if any(mask) and not thorough and badkind in ("version+1", "zero", "swapped", "both-random") and n > 2:
                     continue
                 files = [bads[badkind] if m else goodc for m in mask]
                 for ent in entries:
